@@ -82,13 +82,29 @@ class SpecLib:
             return v.val
         return v
 
-    def clamp(self, i, n, default):
+    def clamp(self, i, n, default, ex=None):
+        """Python slice-bound clamping; conditions the path condition already decides are
+        resolved here so that the terms stay small (context-aware simplification)."""
         if i is NONE:
             return default
         if isinstance(i, VOpt):
-            return z3.If(i.isnone, default, self.clamp(i.val, n, default))
+            d = ex.decided(i.isnone) if ex is not None else None
+            if d is True:
+                return default
+            if d is False:
+                return self.clamp(i.val, n, default, ex)
+            return z3.If(i.isnone, default, self.clamp(i.val, n, default, ex))
         t = unwrap("int", i)
-        return z3.If(t < 0, z3.If(t + n < 0, 0, t + n), z3.If(t > n, n, t))
+
+        def ite(c, a, b):
+            d = ex.decided(c) if ex is not None else None
+            if d is True:
+                return a()
+            if d is False:
+                return b()
+            return z3.If(c, a(), b())
+        return ite(t < 0, lambda: ite(t + n < 0, lambda: z3.IntVal(0), lambda: t + n),
+                   lambda: ite(t > n, lambda: n, lambda: t))
 
     def getslice(self, ex, obj, lo, hi):
         box = isinstance(obj, VBox)
@@ -111,9 +127,10 @@ class SpecLib:
             if l != "?" and h != "?" and (lo is NONE or l is not None) and (hi is NONE or h is not None):
                 return const_seq(s.kind, s.pyval[l:h])
         n = s.length()
-        l = z3.simplify(self.clamp(lo, n, z3.IntVal(0)))
-        h = z3.simplify(self.clamp(hi, n, n))
-        h = z3.simplify(z3.If(h < l, l, h))
+        l = z3.simplify(self.clamp(lo, n, z3.IntVal(0), ex))
+        h = z3.simplify(self.clamp(hi, n, n, ex))
+        d = ex.decided(h < l)
+        h = l if d is True else h if d is False else z3.simplify(z3.If(h < l, l, h))
         if s.view is not None:
             buf, L, H = s.view
             r = VSeq(s.kind, s.ety, None, view=(buf, z3.simplify(L + l), z3.simplify(L + h)))
@@ -309,10 +326,29 @@ class SpecLib:
     def dict_del(self, ex, box, key):
         raise Unsupported("dict delete")
 
+    def fresh_typed(self, ex, ty, nm):
+        """fresh value of a declared type, including model objects: ('obj', 'BinaryIO')"""
+        if isinstance(ty, tuple) and ty[0] == "opt":
+            return VOpt(z3.Bool(fresh_name(nm + "?none")), self.fresh_typed(ex, ty[1], nm))
+        if isinstance(ty, tuple) and ty[0] == "obj":
+            if ty[1] == "BinaryIO":
+                data = VSeq("bytes", "int", z3.Const(fresh_name(nm + "_data"), SeqI))
+                pos = z3.Int(fresh_name(nm + "_pos"))
+                ex.assume(pos >= 0)
+                return VObj("BinaryIO", {"data": data, "pos": VInt(pos), "closed": VBool(False)}, fresh_name(nm))
+            raise Unsupported("fresh object of class %s" % ty[1])
+        v = fresh(ty, nm)
+        self.range_facts(ex, v)
+        if isinstance(v, VBox) and v.kind != "list":
+            return v
+        return v.val if isinstance(v, VBox) and False else v
+
     def range_facts(self, ex, v):
         """byte values are 0..255, code points 0..0x10FFFF"""
         if isinstance(v, VBox) and v.kind == "list":
             v = v.val
+        if not ex.world.range_facts:
+            return
         if isinstance(v, VSeq) and v.pyval is None and v.kind in ("bytes", "str") and v.view is None:
             i = z3.Int("i!rf")
             hi = 255 if v.kind == "bytes" else 0x10FFFF
@@ -337,7 +373,82 @@ class SpecLib:
         raise Unsupported("call of generator %s (needs a contract)" % f.name)
 
     def rec_spec(self, ex, f, args, kwargs):
-        return None
+        """Recursive spec functions become z3 RecFunctions.  `f.rec` = dict(args=[kinds], ret=type);
+        kinds: 'int', 'bytes', 'str' (un-nested term) or 'view:bytes' / 'view:str' (buf, lo, hi)."""
+        rec = getattr(f, "rec", None)
+        if rec is None:
+            return None
+        if kwargs:
+            raise Unsupported("keyword arguments to recursive spec function")
+        acts = []
+        for kind, a in zip(rec["args"], args):
+            acts.extend(self._flatten(kind, a))
+        F = self.rec_specs.get(f.name)
+        if F is None:
+            sorts = []
+            for kind in rec["args"]:
+                sorts.extend(self._flat_sorts(kind))
+            F = z3.Function(f.name.replace("spec:", "spec_"), *(sorts + [sort_of(rec["ret"])]))
+            self.rec_specs[f.name] = F
+            self.use("recursive spec function %s is well defined (terminates): its defining equation is "
+                     "instantiated as an axiom, one unfolding per application" % f.name.replace("spec:", ""))
+        app = F(*acts)
+        # fuel 1: the defining equation F(args) == body(args) is instantiated for every application
+        # that the contract text itself makes; applications inside that body are left folded.
+        if ex._rec_depth == 0:
+            key = ("unfold", f.name, app.get_id())
+            if key not in ex._axiom_keys:
+                ex._rec_depth += 1
+                prev = ex.no_ctx
+                ex.no_ctx = True        # the equation must hold unconditionally: no pc-based simplification
+                try:
+                    body = ex.pure_call(f, args, kwargs, norec=True)
+                finally:
+                    ex.no_ctx = prev
+                    ex._rec_depth -= 1
+                ex._keep.append(app)
+                ex.define(app == unwrap(rec["ret"], body), key=key)
+        return wrap(rec["ret"], app)
+
+    def _flat_sorts(self, kind):
+        if kind == "int":
+            return [I]
+        if kind in ("bytes", "str"):
+            return [SeqI]
+        if kind.startswith("view:"):
+            return [SeqI, I, I]
+        if kind.startswith("list:"):
+            return [sort_of(("list", kind[5:]))]
+        raise Unsupported("rec arg kind %s" % kind)
+
+    def _flatten(self, kind, v):
+        if kind == "int":
+            return [unwrap("int", v)]
+        if kind in ("bytes", "str"):
+            return [v.t]
+        if kind.startswith("list:"):
+            return [self.seqval(v).t]
+        if kind.startswith("view:"):
+            if v.view is not None:
+                return list(v.view)
+            return [v.t, z3.IntVal(0), z3.Length(v.t)]
+        raise Unsupported("rec arg kind %s" % kind)
+
+    def _formal(self, kind, nm):
+        if kind == "int":
+            t = z3.Int(fresh_name("rf_" + nm))
+            return [t], VInt(t)
+        if kind in ("bytes", "str"):
+            t = z3.Const(fresh_name("rf_" + nm), SeqI)
+            return [t], VSeq(kind, "int", t)
+        if kind.startswith("list:"):
+            t = z3.Const(fresh_name("rf_" + nm), sort_of(("list", kind[5:])))
+            return [t], VSeq("list", kind[5:], t)
+        if kind.startswith("view:"):
+            b = z3.Const(fresh_name("rf_" + nm + "_buf"), SeqI)
+            lo, hi = z3.Int(fresh_name("rf_" + nm + "_lo")), z3.Int(fresh_name("rf_" + nm + "_hi"))
+            return [b, lo, hi], VSeq(kind[5:], "int", None, view=(b, lo, hi))
+        raise Unsupported("rec arg kind %s" % kind)
 
     # ------------------------------------------------------------------ first occurrence
     def first_at(self, ex, buf, c, p):
@@ -348,9 +459,13 @@ class SpecLib:
         n = z3.Length(buf)
         j = z3.Int("j!fa")
         ex.define(z3.Or(k == -1, z3.And(k >= p, k >= 0, k < n, buf[k] == c)))
-        ex.define(z3.ForAll([j], z3.Implies(z3.And(j >= p, j >= 0, j < n, z3.Or(k == -1, j < k)), buf[j] != c),
-                            patterns=[buf[j]]),
-                  key=("fa-all", k.sexpr()))
+        if ex.world.quantified_search:
+            # "no occurrence before k": only needed when two searches with different starting
+            # points have to be related; off by default (quantifiers + sequences proved fragile in
+            # the back ends, see DESIGN "solver soundness")
+            ex.define(z3.ForAll([j], z3.Implies(z3.And(j >= p, j >= 0, j < n, z3.Or(k == -1, j < k)), buf[j] != c),
+                                patterns=[buf[j]]),
+                      key=("fa-all", k.sexpr()))
         return k
 
     # ------------------------------------------------------------------ install
